@@ -228,7 +228,7 @@ class PathCtx:
         t0 = time.time()
         self.checks += 1
         if self.strings and _has_strings(self.pc + [g]):
-            r = self._cvc5_check(self.pc + [g], 3)
+            r, _ = self._cvc5_check(self.pc + [g], 3)
             self.solver_time += time.time() - t0
             if r == "unknown":
                 return True
@@ -245,9 +245,7 @@ class PathCtx:
         if want_model:
             smt = smt.replace("(check-sat)", "(check-sat)\n(get-model)")
         st, out = run_cvc5(smt, timeout_s, want_model)
-        if want_model:
-            return st, out
-        return st
+        return st, out
 
     # ------------------------------------------------------------ forking
     def choose(self, guards):
@@ -367,6 +365,13 @@ class PathCtx:
                 info["weak"] = True
             if not status:
                 status, backend = "undecided", "z3+cvc5"
+                dd = os.environ.get("PYVC_DUMP_DIR")
+                if dd:
+                    s3 = z3.Solver()
+                    for a_ in self.pc + [neg]:
+                        s3.add(a_)
+                    with open(os.path.join(dd, "undecided_%d.smt2" % len(self.obligations)), "w") as fh:
+                        fh.write("(set-logic ALL)\n" + s3.to_smt2())
         dt = time.time() - t0
         self.solver_time += dt
         ob = Obligation(name, clause_text, status, backend, dt, model, info, path=list(self.log))
